@@ -565,7 +565,10 @@ Proof.
     split; [constructor; simpl; auto; try constructor; try tauto; apply I|].
     split; auto. unfold spec_eq, abs; simpl. auto.
   - (* start *)
-    eapply start_sim; eauto.
+    change (t_started (abs s)) with (thr_started s) in H2.
+    destruct (thr_started s).
+    + inversion H1; inversion H2; subst. split; auto. split; auto. apply spec_eq_refl.
+    + eapply start_sim; eauto.
   - (* stop *)
     inversion H1; inversion H2; subst.
     split; [constructor; simpl; auto; try constructor; try tauto; apply I|].
@@ -613,7 +616,9 @@ Proof.
     unfold spec_eq, spec_drop; simpl. rewrite Es. repeat split; auto.
     intros w'. unfold hs_set. destruct (weqb w w'); auto.
   - inversion H1; inversion H2; subst. split; auto. unfold spec_eq; simpl; auto.
-  - rewrite <- Es in H2. eapply spec_start_loop_morph; eauto.
+  - rewrite <- Es, <- Et in H2. destruct (t_started t1).
+    + inversion H1; inversion H2; subst. split; auto.
+    + eapply spec_start_loop_morph; eauto.
   - inversion H1; inversion H2; subst. split; auto. unfold spec_eq; simpl; auto.
 Qed.
 
@@ -756,7 +761,7 @@ Proof.
     + destruct (memb N.eqb h (hs t w)); inversion S.
     + destruct (amem weqb w (sched t)); inversion S.
     + inversion S.
-    + apply spec_start_loop_no_internal in S. congruence.
+    + destruct (t_started t); [inversion S|]. apply spec_start_loop_no_internal in S. congruence.
     + inversion S.
   - specialize (IH t1). rewrite R in IH. auto.
 Qed.
@@ -806,7 +811,7 @@ Proof.
   - destruct (amem weqb w0 (sched t)); inversion H; subst; auto.
     unfold spec_drop, hs_set in Hin; simpl in Hin. destruct (weqb w0 w); simpl in *; tauto.
   - inversion H; subst. simpl in Hin. tauto.
-  - left. eapply spec_start_loop_hs; eauto.
+  - destruct (t_started t); [inversion H; subst; auto|]. left. eapply spec_start_loop_hs; eauto.
   - inversion H; subst. simpl in Hin. tauto.
 Qed.
 
@@ -898,3 +903,8 @@ Proof.
   vm_compute. repeat split; auto; try discriminate.
   exists w. split; auto.
 Qed.
+
+(* start() on an observer whose thread was ever started is refused up front and changes nothing *)
+Lemma second_start_identity s ord flt : thr_started s = true ->
+  step true true s (Start ord, flt) = (s, Raised EAlready).
+Proof. intros H. simpl. rewrite H. reflexivity. Qed.
